@@ -498,6 +498,10 @@ package genetics
 //@ func (*Genome).mateMultipoint
 //@   props C04 C01
 //@   mode nosafety
+//@   assert [strict.beforeIn] sortedNodesLT(arg0) && (forall i :: 0 <= i && i < len(arg0) ==> arg0[i].Id != arg1.Id) @ before 2 nodeInsert
+//@   assert [strict.beforeOut] sortedNodesLT(arg0) && (forall i :: 0 <= i && i < len(arg0) ==> arg0[i].Id != arg1.Id) @ before 3 nodeInsert
+//@   assert [strict.afterIn] sortedNodesLT(result) @ after 2 nodeInsert
+//@   assert [strict.afterOut] sortedNodesLT(result) @ after 3 nodeInsert
 //@   assert [cut.bounds] 0 <= i1 && i1 <= size1 && 0 <= i2 && i2 <= size2 && size1 == len(g.Genes) && size2 == len(og.Genes) && len(newTraits) == len(g.Traits) && childNodesMap != nil && fresh(childNodesMap) @ after 1 NewGeneCopy
 //@   assert [cut.traits] forall i :: 0 <= i && i < len(newTraits) ==> newTraits[i] != nil && newTraits[i].Id == g.Traits[i].Id && (forall k :: 0 <= k && k < len(g.Traits[i].Params) ==> newTraits[i].Params[k] == (g.Traits[i].Params[k] + og.Traits[i].Params[k]) / 2.0) @ after 1 NewGeneCopy
 //@   assert [cut.nodes] nonNilNodes(newNodes) && sortedNodesLE(newNodes) && fresh(newNodes) && fresh(newGenes) @ after 1 NewGeneCopy
@@ -506,6 +510,7 @@ package genetics
 //@   assert [cut.fromA] forall k :: 0 <= k && k < len(newGenes) && sel(gSrc, k) >= 0 ==> fromGene(newGenes[k], g.Genes[sel(gSrc, k)]) @ after 1 NewGeneCopy
 //@   assert [cut.fromB] forall k :: 0 <= k && k < len(newGenes) && sel(gSrc, k) < 0 ==> fromGene(newGenes[k], og.Genes[0 - sel(gSrc, k) - 1]) @ after 1 NewGeneCopy
 //@   assert [cut.sorted] sortedLT(newGenes) @ after 1 NewGeneCopy
+//@   assert [cut.nodesStrict] sortedNodesLT(newNodes) @ after 1 NewGeneCopy
 //@   assert [cut.better] p1better == better1(fitness1, fitness2, g, og) @ after 1 NewGeneCopy
 //@   assert [cut.kidA.fit] forall a :: 0 <= a && a < i1 && p1better && g.Genes[a].InnovationNum < chosenGene.InnovationNum ==> 0 <= sel(gKidA, a) && sel(gKidA, a) < len(newGenes) && newGenes[sel(gKidA, a)].InnovationNum == g.Genes[a].InnovationNum @ after 1 NewGeneCopy
 //@   assert [cut.kidB.fit] forall b :: 0 <= b && b < i2 && !p1better && og.Genes[b].InnovationNum < chosenGene.InnovationNum ==> 0 <= sel(gKidB, b) && sel(gKidB, b) < len(newGenes) && newGenes[sel(gKidB, b)].InnovationNum == og.Genes[b].InnovationNum @ after 1 NewGeneCopy
@@ -547,11 +552,13 @@ package genetics
 //@   cut keep(cut.bounds, cut.nodes, cut.genesWF, cut.srcRange, cut.better, cut.new, cut.chosen, cut.distinct, cut.mono, cut.parents, cut.chosenBelowNext, cut.childBelowChosen, cut.aBelow, cut.bBelow, cut.geneMemFrame, cut.enabledFrame, cut.disable, cut.consistent) @ after 1 NewGeneCopy
 //@   requires g != nil && og != nil && parentShape(g, g) && parentShape(og, g) && len(g.Traits) == len(og.Traits) && len(g.Traits) >= 1 && neat.ErrTraitsParametersCountMismatch != nil
 //@   requires forall i :: 0 <= i && i < len(g.Traits) ==> len(g.Traits[i].Params) == len(og.Traits[i].Params)
+//@   requires [uniqueNodeIds] forall i, j :: 0 <= i && i < j && j < len(og.Nodes) ==> og.Nodes[i].Id != og.Nodes[j].Id
 //@   requires [commonAncestry] linksConsistent(g, g) && linksConsistent(g, og) && linksConsistent(og, og)
 //@   modifies ghost gSrc, ghost gOth, ghost gKidA, ghost gKidB
 //@   ensures [ok] result1 == nil && result0 != nil && fresh(result0) && result0.Id == genomeId
 //@   ensures [traits] len(result0.Traits) == len(g.Traits) && (forall i :: 0 <= i && i < len(g.Traits) ==> result0.Traits[i].Id == g.Traits[i].Id && (forall k :: 0 <= k && k < len(g.Traits[i].Params) ==> result0.Traits[i].Params[k] == (g.Traits[i].Params[k] + og.Traits[i].Params[k]) / 2.0))
 //@   ensures [once] sortedLT(result0.Genes)
+//@   ensures [nodesUnique] sortedNodesLT(result0.Nodes)
 //@   ensures [provenance] forall k :: 0 <= k && k < len(result0.Genes) ==> (exists a :: 0 <= a && a < len(g.Genes) && fromGene(result0.Genes[k], g.Genes[a])) || (exists b :: 0 <= b && b < len(og.Genes) && fromGene(result0.Genes[k], og.Genes[b]))
 //@   ensures [both] forall a, b :: 0 <= a && a < len(g.Genes) && 0 <= b && b < len(og.Genes) && g.Genes[a].InnovationNum == og.Genes[b].InnovationNum ==> (exists k :: 0 <= k && k < len(result0.Genes) && result0.Genes[k].InnovationNum == g.Genes[a].InnovationNum)
 //@   ensures [fitterA] better1(fitness1, fitness2, g, og) ==> (forall a :: 0 <= a && a < len(g.Genes) ==> (exists k :: 0 <= k && k < len(result0.Genes) && result0.Genes[k].InnovationNum == g.Genes[a].InnovationNum))
@@ -565,6 +572,8 @@ package genetics
 //@     invariant -1 <= #idx && len(newTraits) == len(g.Traits) && childNodesMap != nil && fresh(childNodesMap) && len(newGenes) == 0 && fresh(newGenes) && fresh(newNodes)
 //@     invariant forall i :: 0 <= i && i < len(newTraits) ==> newTraits[i] != nil && newTraits[i].Id == g.Traits[i].Id && (forall k :: 0 <= k && k < len(g.Traits[i].Params) ==> newTraits[i].Params[k] == (g.Traits[i].Params[k] + og.Traits[i].Params[k]) / 2.0)
 //@     invariant nonNilNodes(newNodes) && sortedNodesLE(newNodes)
+//@     invariant [strict] sortedNodesLT(newNodes)
+//@     invariant [notLater] forall j, i :: 0 <= j && j < len(newNodes) && #idx < i && i < len(og.Nodes) ==> newNodes[j].Id != og.Nodes[i].Id
 //@     invariant forall b :: wasAllocated(b) ==> Mem[*network.NNode][b] == old(Mem[*network.NNode][b])
 //@   loop 2:
 //@     focus bounds, better, srcRange, mergeA, mergeB, geneMemFrame
@@ -576,6 +585,7 @@ package genetics
 //@     invariant [fromA] forall k :: 0 <= k && k < len(newGenes) && sel(gSrc, k) >= 0 ==> fromGene(newGenes[k], g.Genes[sel(gSrc, k)])
 //@     invariant [fromB] forall k :: 0 <= k && k < len(newGenes) && sel(gSrc, k) < 0 ==> fromGene(newGenes[k], og.Genes[0 - sel(gSrc, k) - 1])
 //@     invariant [sorted] sortedLT(newGenes)
+//@     invariant [nodesStrict] sortedNodesLT(newNodes)
 //@     invariant [better] p1better == better1(fitness1, fitness2, g, og)
 //@     invariant [kidA.fit] forall a :: 0 <= a && a < i1 && p1better ==> 0 <= sel(gKidA, a) && sel(gKidA, a) < len(newGenes) && newGenes[sel(gKidA, a)].InnovationNum == g.Genes[a].InnovationNum
 //@     invariant [kidB.fit] forall b :: 0 <= b && b < i2 && !p1better ==> 0 <= sel(gKidB, b) && sel(gKidB, b) < len(newGenes) && newGenes[sel(gKidB, b)].InnovationNum == og.Genes[b].InnovationNum
@@ -604,9 +614,11 @@ package genetics
 //@     invariant [childBelowChosen] forall k :: 0 <= k && k < len(newGenes) ==> newGenes[k].InnovationNum < chosenGene.InnovationNum
 //@   loop 4:
 //@     invariant -1 <= #idx && (newInNode != nil ==> newInNode.Id == inNode.Id)
+//@     invariant [inNotYet] newInNode == nil && sortedNodesLT(newNodes) && (forall j :: 0 <= j && j <= #idx ==> newNodes[j].Id != inNode.Id)
 //@     invariant [chosen] chosenGene != nil && chosenGene.Link != nil && chosenGene.Link.InNode != nil && chosenGene.Link.OutNode != nil && ((i1 > 0 && chosenGene == g.Genes[i1-1]) || (i2 > 0 && chosenGene == og.Genes[i2-1]))
 //@   loop 5:
 //@     invariant -1 <= #idx && (newOutNode != nil ==> newOutNode.Id == outNode.Id)
+//@     invariant [outNotYet] newOutNode == nil && sortedNodesLT(newNodes) && (forall j :: 0 <= j && j <= #idx ==> newNodes[j].Id != outNode.Id)
 //@     invariant [chosen] chosenGene != nil && chosenGene.Link != nil && chosenGene.Link.InNode != nil && chosenGene.Link.OutNode != nil && ((i1 > 0 && chosenGene == g.Genes[i1-1]) || (i2 > 0 && chosenGene == og.Genes[i2-1]))
 
 // ---- C10 / C02: what one species contributes to the next generation ---------------------------------
